@@ -481,7 +481,7 @@ def extract_type(repo, blk, meta):
     log = []
     item = X.strip_comments(item)
     item = X.drop_cfg_features(item, log)
-    item = X.drop_attrs(item, log)
+    item = X.drop_attrs(item, log, keep=('#[repr',) if 'keeprepr' in blk.flags else ())
     item = X.drop_vis(item, log)
     for pat, rep, rule in blk.substs + meta['gsubst']:
         item = X.relex(item)
@@ -492,6 +492,13 @@ def extract_type(repo, blk, meta):
     t = text(item)
     if 'as' in kv:
         t = re.sub(r'^(struct|enum)\s+%s\b' % re.escape(kv['name']), r'\1 ' + kv['as'], t)
+    if 'keeprepr' in blk.flags:
+        pre = text(toks[max(0, a - 80):a])
+        mm = re.findall(r'#\[repr\([a-z0-9]+\)\]', pre)
+        if mm:
+            t = mm[-1] + '\n' + t if False else t
+            blk.attrs = list(blk.attrs) + [mm[-1]]
+            log.append(('R11', 'kept attribute %s' % mm[-1], src_line))
     t = ''.join(a + '\n' for a in blk.attrs) + 'pub ' + t
     # make fields pub so spec functions can read them
     if kv['kind'] == 'struct':
